@@ -428,8 +428,18 @@ func (broker *Broker) recover() (send []sts.Hashed, err error) {
 			nPoll,
 		))
 		var polled []sts.Polled
-		if polled, err = broker.Conf.Validator(pollNow); err != nil {
-			return
+		for {
+			if polled, err = broker.Conf.Validator(pollNow); err == nil {
+				break
+			}
+			// Giving up here would leave these files cached but neither
+			// sent nor polled again until the next restart
+			broker.error("Recovery poll request failed:", err.Error())
+			nErr++
+			broker.applyErrorBackoff(nErr)
+			if broker.shouldStopNow() {
+				return
+			}
 		}
 		broker.info("STARTUP: Processing server response ...")
 		for _, f := range polled {
